@@ -185,6 +185,12 @@ impl<T: ?Sized + Trace> Cc<T> {
         self.inner
     }
 
+    #[cfg(feature = "verif-hooks")]
+    #[inline(always)]
+    pub(crate) fn verif_inner_ptr(&self) -> NonNull<CcBox<T>> {
+        self.inner
+    }
+
     #[cfg(feature = "weak-ptrs")] // Currently used only here
     #[inline(always)]
     #[must_use]
@@ -369,6 +375,8 @@ impl<T: Trace> CcBox<T> {
 
         unsafe {
             let ptr: NonNull<CcBox<T>> = cc_alloc(layout, state);
+            #[cfg(feature = "verif-hooks")]
+            crate::verif::observe(crate::verif::ObsKind::BoxAlloc, ptr.as_ptr() as usize, layout.size(), layout.align());
             ptr::write(
                 ptr.as_ptr(),
                 CcBox {
@@ -487,6 +495,18 @@ impl<T: ?Sized + Trace> CcBox<T> {
 
     #[inline]
     pub(super) fn get_prev(&self) -> *mut Option<NonNull<CcBox<()>>> {
+        self.prev.get()
+    }
+
+    #[cfg(feature = "verif-hooks")]
+    #[inline]
+    pub(crate) fn verif_next(&self) -> *const Option<NonNull<CcBox<()>>> {
+        self.next.get()
+    }
+
+    #[cfg(feature = "verif-hooks")]
+    #[inline]
+    pub(crate) fn verif_prev(&self) -> *const Option<NonNull<CcBox<()>>> {
         self.prev.get()
     }
 }
@@ -713,6 +733,8 @@ impl BoxedMetadata {
     fn new(vtable: VTable, weak_counter_marker: WeakCounterMarker) -> NonNull<BoxedMetadata> {
         unsafe {
             let ptr: NonNull<BoxedMetadata> = alloc_other();
+            #[cfg(feature = "verif-hooks")]
+            crate::verif::observe(crate::verif::ObsKind::OtherAlloc, ptr.as_ptr() as usize, core::mem::size_of::<BoxedMetadata>(), core::mem::align_of::<BoxedMetadata>());
             ptr::write(
                 ptr.as_ptr(),
                 BoxedMetadata {
